@@ -49,6 +49,16 @@ def reference(spec, img, rng_seed):
         return 'any', None
     if c == 'RandomSizedCrop':
         return 'shape', (a['height'], a['width'], a['depth'])
+    if c == 'RandomCropFromBorders':
+        # documented: each side is cut by a random amount below its own fraction of the extent; nothing is resized
+        H, W, D = img.shape[:3]
+        fr = {k: a.get(k, 0.1) for k in ('crop_left', 'crop_right', 'crop_top', 'crop_bottom', 'crop_close', 'crop_far')}
+        if not any(fr.values()):
+            return 'exact', img
+        lo = (max(1, int((1 - fr['crop_bottom']) * H) - int(fr['crop_top'] * H)),
+              max(1, int((1 - fr['crop_right']) * W) - int(fr['crop_left'] * W)),
+              max(1, int((1 - fr['crop_far']) * D) - int(fr['crop_close'] * D)))
+        return 'subwindow', (lo, (int(fr['crop_top'] * H), int(fr['crop_left'] * W), int(fr['crop_close'] * D)))
     if c == 'CropAndPad' and not a.get('keep_size', True) and (isinstance(a.get('px'), (tuple, list)) or isinstance(a.get('percent'), (tuple, list))) \
             and all(isinstance(v, (int, float)) for v in (a.get('px') or a.get('percent'))):
         # documented: six entries = top, bottom, left, right, close, far; negative crops that many voxels off the
@@ -100,6 +110,17 @@ def check(spec, case, viol):
             bad = ('fill voxels', 'window taken from inside the volume')
         elif lat is not None and (lat['perm'] != [0, 1, 2] or any(lat['sign'][a] != 1 for a in range(3) if a not in lat['ambiguous'])):
             bad = ('map %s' % lat, 'a contiguous window')
+    elif kind == 'subwindow':
+        o3 = out[..., 0] if out.ndim == 4 else out
+        lo, max_off = ref
+        lat = geom.derive_lattice(o3, shape)
+        if any(o < l or o > n for o, l, n in zip(out.shape[:3], lo, shape)):
+            bad = ('shape %s' % (out.shape,), 'each extent between %s and the input extent %s' % (lo, tuple(shape)))
+        elif np.any(o3 <= 0):
+            bad = ('fill voxels', 'a window of the input')
+        elif lat is not None and (lat['perm'] != [0, 1, 2] or any(lat['sign'][a_] != 1 for a_ in range(3) if a_ not in lat['ambiguous'])
+                                  or any(lat['off'][a_] > max_off[a_] for a_ in range(3) if a_ not in lat['ambiguous'])):
+            bad = ('map %s' % lat, 'a contiguous window starting within the first %s voxels' % (max_off,))
     elif kind == 'pad':
         a = spec['args']
         H, W, D = shape
@@ -162,7 +183,8 @@ def configs(rng, shape):
     out.append(S.L('Flip', pin={'d': rng.choice([-1, 0, 1, 2])}))
     ax = rng.choice(S.PLANES)
     out.append(S.L('RandomRotate90', pin={'factor': rng.randint(0, 3), 'axes': ax}, axes=ax))
-    out += [c for c in S.lattice_configs(rng, shape) if c['cls'] in ('RandomCrop', 'CenterCrop', 'Crop', 'PadIfNeeded')]
+    out += [c for c in S.lattice_configs(rng, shape) if c['cls'] in ('RandomCrop', 'CenterCrop', 'Crop', 'PadIfNeeded', 'RandomCropFromBorders')]
+    out.append(S.L('RandomCropFromBorders', crop_left=0.0, crop_right=0.0, crop_top=0.0, crop_bottom=0.0, crop_close=0.0, crop_far=0.0))
     out += S.resample_configs(rng, shape, interpolation=0)
     mh = rng.randint(1, min(H, W, D))
     out.append(S.L('RandomSizedCrop', min_max_height=(mh, mh), height=rng.randint(1, 9), width=rng.randint(1, 9),
